@@ -16,17 +16,17 @@
     §3 zero            `ctfTRu_zero_only_from_simplify`, `ctfTRu_zero_of_simplify`, `ctf_zero_sound_partial`
     §4 composition     `ctfTRu_event_is_simplified`, `sigmaTR_uses_usable_domain`, `transportFactors_all`,
                        `ctfTRu_answer_shape`
-    §5 no other error  `ctfTRu_no_internal_error_partial` (Algorithm 2 never raises outside the crash class), its parts
-                       `simplify_no_error_outside_class` / `simplify_no_error_outside_risk`, `line2_total`,
+    §5 no other error  `ctfTRu_no_internal_error` (Algorithm 2 never raises on a validated input; no class of events
+                       excluded after repo c8cad49 + 333fa44), its parts `simplify_no_error`, `line2_total`,
                        `sigmaTRDomain_no_error`, `transportFactors_no_error`; `sigmaTR_sound`
     §6 Algorithm 3     `ctfTR_zero_only_from_simplify`, `ctfTR_answer_shape`, `ctfTR_event_shape`,
                        `ctfTR_q_good` (Q of Algorithm 2 is never Zero() and has the expected vocabulary),
-                       `ctfTR_no_internal_error_partial` (Algorithm 3 never raises outside its crash classes),
-                       `ctfTR_answers_or_fails`; the two further classes decided:
-                       `ctfTR_no_internal_error_found_partial` (`DstarOneWorld` is not needed),
-                       `ctfTR_no_internal_error_plain_partial` (`OutcomeNotCondition` is not needed for distributions over
-                       plain variables; needed for arbitrary ones: witness `a3Shared`)
-  OPEN (stated below): ctfTR_no_internal_error without `OutcomesFound` (FALSE of the current code: witness `a3Miss`).
+                       `ctfTR_no_internal_error` (Algorithm 3 never raises on a validated input; no class of queries
+                       excluded after repo f335599: `ctfTR_outcomes_found`), `ctfTR_answers_or_fails`,
+                       `ctfTR_no_internal_error_anypop_partial` (domain distributions that list counterfactual variables:
+                       `OutcomeNotCondition` needed, witness `a3Shared`), `ctfTR_simplified_binds_once`
+  OPEN (stated below): ctf_no_internal_error without `DomainsAgree` (FALSE of the current code: witness `w1`, open finding
+  crash:sigmaTR-district-split).
   The VALUE clause is in Y0/Props/C09Sound.lean: `ctfTRu_sound_partial` (Algorithm 2, proved inside the decidable class
   `ctfSoundClass`), `ctfTR_sound_partial` (Algorithm 3, proved inside the decidable class `ctfTRSoundClass`);
   OPEN there: both clauses outside their classes.
